@@ -29,7 +29,6 @@ BigSpec == Init /\ [][BigNext]_vars
 Safety == TypeOK /\ Exclusion /\ NoEarlyTakeover /\ GraceRespected /\ FileOwned
 \* with the operator's hands on the file only the decision itself can be relied on: a well-formed, recent file is never taken over
 Weak == TypeOK /\ (Fresh => lastw[out.i] = now)
-WeakAct == [][\A i \in Inst : (NewAtomic(i) /\ out'.res = "ok") => ~(file.st = "ok" /\ now - file.ts <= S)]_vars
 
 (* Liveness: processes that keep running, a clock that keeps going, an operator who keeps trying to start charon:
    whenever a holder was stopped (gracefully or not) early enough for the windows to pass before the model's clock stops,
